@@ -108,6 +108,15 @@ impl<K: Eq + Hash + Clone> LruList<K> {
     }
   }
 
+  /// Updates the recorded cost of a key without touching its position.
+  pub fn set_cost(&mut self, key: &K, cost: u64) {
+    if let Some(&index) = self.lookup.get(key) {
+      let old_cost = self.nodes[index].cost;
+      self.current_cost = self.current_cost.saturating_sub(old_cost) + cost;
+      self.nodes[index].cost = cost;
+    }
+  }
+
   pub fn move_to_front(&mut self, key: &K) {
     if let Some(&index) = self.lookup.get(key) {
       // Only move if it's not already the head.
